@@ -1,5 +1,6 @@
 import ButlerModel.Props.C02
 import ButlerModel.Model.Mexists
+import ButlerModel.Gen.ExistsPy
 /-! # C10 — removal is complete and precise; existence reports tell the truth -/
 namespace C10
 open Registry C02
@@ -342,3 +343,42 @@ example :
   decide
 
 end C10.Mexists
+
+/-! ### `Butler.exists`: the flags and their truth value, as translated from the source on every run (`Gen/ExistsPy.lean`)
+
+`start reg` is what the head of `DirectButler.exists` has gathered when its tail begins: `RECORDED` exactly when the registry has
+the dataset (`existence |= DatasetExistence.RECORDED` under `registry_ref is not None`, or after a successful lookup).  The three
+datastore-side inputs are the answers of `datastore.knows`, `datastore.exists` and the caller's `full_check`.  All quantifiers are
+over Booleans, so each theorem is proved by exhausting the sixteen cases in the kernel. -/
+namespace C10.Translated
+open Gen.ExistsPy
+
+def start (reg : Bool) : Nat := if reg then RECORDED else UNRECOGNIZED
+def has (f bit : Nat) : Bool := f &&& bit != 0
+def flags (reg ds art full : Bool) : Nat := existsTail (start reg) ds art full
+
+/-- **The reported flags agree with the three facts**: RECORDED exactly when the registry knows the dataset, DATASTORE exactly when
+the datastore knows it, and — in a full check — the artifact flag exactly when the artifact is there; a quick check never claims
+the artifact. -/
+theorem exists_flags (reg ds art full : Bool) :
+    has (flags reg ds art full) RECORDED = reg ∧ has (flags reg ds art full) DATASTORE = ds ∧
+    has (flags reg ds art full) ARTIFACT = (full && art) := by
+  cases reg <;> cases ds <;> cases art <;> cases full <;> decide
+
+/-- **Truth value**: the result of `exists` is true exactly when registry and datastore both know the dataset and (in a full
+check) the artifact is present. -/
+theorem exists_truth (reg ds art full : Bool) :
+    boolPy (flags reg ds art full) = (reg && ds && (!full || art)) := by
+  cases reg <;> cases ds <;> cases art <;> cases full <;> decide
+
+/-- a dataset nobody knows and whose artifact is absent is UNRECOGNIZED in both forms of the check (no "assumed" flag out of nothing) -/
+theorem unknown_is_unrecognized (full : Bool) : flags false false false full = UNRECOGNIZED := by
+  cases full <;> decide
+
+/-- the flag values are distinct bits and the two "exists" combinations are what the documentation says -/
+theorem flag_table : RECORDED = 1 ∧ DATASTORE = 2 ∧ ARTIFACT = 4 ∧ ASSUMED = 8 ∧
+    KNOWN = RECORDED ||| DATASTORE ||| ASSUMED ∧ VERIFIED = RECORDED ||| DATASTORE ||| ARTIFACT := by decide
+
+example : flags true true false true = 3 ∧ boolPy 3 = false ∧ flags true true true false = KNOWN := by decide
+
+end C10.Translated
